@@ -72,6 +72,12 @@ def scenarios(tier):
         sc.append(dict(name='del k1 || set k3', backend=b, prior=P2, actors=[W(('del', 'k1')), W(('set', 'k3', 'new3'))]))
         sc.append(dict(name='pop k2 || overwrite k1', backend=b, prior=P2, actors=[W(('pop', 'k2')), W(('set', 'k1', 'new1'))]))
         sc.append(dict(name='dump k3,k4 || load', backend=b, prior=P1, actors=[W(('dump', (('k3', 'new3'), ('k4', 'new4')))), R(('load',))]))
+        # keys that dir_archive cannot read back from the directory name (it keeps the key itself in a second file of the
+        # entry): an int and a string with a dash, overwritten next to a listing reader
+        P3 = P1 + [('set', 7, 'old7'), ('set', 'a-b', 'olddash')]
+        for r in [('keys',), ('items',)] + ([('load',), ('len',)] if tier == 'thorough' else []):
+            sc.append(dict(name='overwrite 7 || %s' % (r,), backend=b, prior=P3, actors=[W(('set', 7, 'new7')), R(r)]))
+        sc.append(dict(name='overwrite a-b || %s' % (('keys',),), backend=b, prior=P3, actors=[W(('set', 'a-b', 'newdash')), R(('keys',))]))
         # a cache bound to the archive that synchronises its one new entry, next to a writer that overwrites another key
         sc.append(dict(name='sync k3 || overwrite k1', backend=b, prior=P1,
                        actors=[W(('sync', (('k3', 'new3'),))), W(('set', 'k1', 'new1'))]))
